@@ -1,10 +1,10 @@
 // ===== prelude/chan.rs — the receiving end as a PollFn stream =====
 #[verifier::external_body] #[verifier::accept_recursive_types(A)] pub struct PayloadStreamObj<A> { p: core::marker::PhantomData<A> }
 impl<A> PayloadStreamObj<A> { pub uninterp spec fn chan(&self) -> int; }
-impl<A> OwnView for PayloadStreamObj<A> { open spec fn own(&self) -> Own { own_none() } }
+impl<A> OwnView for PayloadStreamObj<A> { uninterp spec fn own(&self) -> Own; }     // what the receiving closure captured (poll_fn_stream)
 // futures::stream::poll_fn(Box::new(closure)): a stream that polls the receiver the closure captured
 #[verifier::external_body]
-pub fn poll_fn_stream<A>(f: BoxedFn<(A,)>) -> (r: PayloadStreamObj<A>) ensures r.chan() == f.cap0() { unimplemented!() }
+pub fn poll_fn_stream<A>(f: BoxedFn<(A,)>) -> (r: PayloadStreamObj<A>) ensures r.chan() == f.cap0(), r.own() == f.captured() { unimplemented!() }
 #[verifier::external_body] #[verifier::accept_recursive_types(A)] pub struct TaskFnObj<A> { p: core::marker::PhantomData<A> }
 
 // the boxed future a waiting submit closure returns (`Pin<Box<dyn Future<Output = Result<()>> + Send>>`); only its identity matters to the adapter contracts
